@@ -436,7 +436,8 @@ class Gen:
         if k == "base":
             return self.base(t["name"])
         if k == "stringLiteral" or k == "integerLiteral" or k == "booleanLiteral":
-            return P(t["value"], ("lit",))
+            # member=True: the constructor path leaves the literal to its default
+            return P(t["value"], ("lit",), self.draw(st.booleans()))
         if k == "reference":
             n = t["name"]
             if n == "LSPAny":
